@@ -38,6 +38,7 @@ static int g_threaded = 0;            /* tsched: one scheduler connection per th
 static __thread int t_sock = -1;
 static char g_sockpath[108];
 static long g_kill_at = -1;
+static int g_count_reads = 0;         /* inject/log: read-side calls (stat, opendir, open O_RDONLY, read) are events too */
 static long g_fail_at = -1;           /* inject: the k-th mutating call FAILS with g_fail_errno instead of running */
 static int g_fail_errno = 28;         /* ENOSPC */
 static __thread int t_fail = 0;
@@ -166,6 +167,8 @@ static void init_once(void) {
         g_kill_at = (k && !strcmp(m, "inject")) ? atol(k) : -1;
         const char *fa = getenv("VSHIM_FAIL_AT");
         g_fail_at = (fa && !strcmp(m, "inject")) ? atol(fa) : -1;
+        const char *cr = getenv("VSHIM_COUNT_READS");
+        g_count_reads = (cr && *cr == '1');
         const char *fe = getenv("VSHIM_FAIL_ERRNO");
         if (fe) g_fail_errno = atoi(fe);
         g_mode = !strcmp(m, "inject") ? M_INJECT : M_LOG;
@@ -268,7 +271,7 @@ static void sched_done(const char *call, long ret, int err) {
         abs_path(dirfd, path, ap_);                                                              \
         if (path2) abs_path(dirfd2, path2, ap2_);                                                \
         rel_ = under_root(ap_) || (path2 && under_root(ap2_));                                   \
-        if (rel_ && (g_mode == M_LOG || g_mode == M_INJECT) && (is_mut)) mut_event(call, ap_, ap2_, size, flags); \
+        if (rel_ && (g_mode == M_LOG || g_mode == M_INJECT) && ((is_mut) || g_count_reads)) mut_event(call, ap_, ap2_, size, flags); \
         if (rel_ && g_mode == M_SCHED) sched_at(call, ap_, ap2_, size);                          \
     }
 #define PATH_DONE(call, ret) if (active_ && rel_ && g_mode == M_SCHED) { int e_ = errno; sched_done(call, (long)(ret), e_); errno = e_; }
@@ -280,7 +283,7 @@ static void sched_done(const char *call, long ret, int err) {
         rel_ = under_root(fp_);                                                                  \
         int fifo_ = 0;                                                                           \
         if (!rel_ && (count_fifo) && (g_mode == M_LOG || g_mode == M_INJECT) && is_fifo(fd)) { fifo_ = 1; } \
-        if ((rel_ || fifo_) && (g_mode == M_LOG || g_mode == M_INJECT) && (is_mut)) mut_event(call, fifo_ ? "<pipe>" : fp_, "", size, flags); \
+        if ((rel_ || fifo_) && (g_mode == M_LOG || g_mode == M_INJECT) && ((is_mut) || (g_count_reads && rel_))) mut_event(call, fifo_ ? "<pipe>" : fp_, "", size, flags); \
         if (rel_ && g_mode == M_SCHED) sched_at(call, fp_, "", size);                            \
     }
 #define FD_DONE(call, ret) if (active_ && rel_ && g_mode == M_SCHED) { int e_ = errno; sched_done(call, (long)(ret), e_); errno = e_; }
@@ -395,7 +398,7 @@ ssize_t read(int fd, void *buf, size_t n) {
         return r;
     }
     FD_EVENT("read", fd, (long)n, 0, 0, 0);
-    ssize_t r = real_read(fd, buf, n);
+    ssize_t r = t_fail ? (ssize_t)vshim_fail() : real_read(fd, buf, n);
     FD_DONE("read", r);
     LEAVE();
     return r;
@@ -616,6 +619,24 @@ int chmod(const char *p, mode_t m) {
     LEAVE();
     return r;
 }
+int linkat(int d1, const char *a, int d2, const char *b, int fl) {
+    REAL(linkat);
+    ENTER();
+    PATH_EVENT("link", d1, a, d2, b, 0, 0, 1);
+    int r = t_fail ? (int)vshim_fail() : real_linkat(d1, a, d2, b, fl);
+    PATH_DONE("link", r);
+    LEAVE();
+    return r;
+}
+int symlinkat(const char *a, int d, const char *b) {
+    REAL(symlinkat);
+    ENTER();
+    PATH_EVENT("symlink", d, b, 0, NULL, 0, 0, 1);
+    int r = t_fail ? (int)vshim_fail() : real_symlinkat(a, d, b);
+    PATH_DONE("symlink", r);
+    LEAVE();
+    return r;
+}
 int link(const char *a, const char *b) {
     REAL(link);
     ENTER();
@@ -641,13 +662,13 @@ int statx(int dirfd, const char *path, int flags, unsigned mask, struct statx *s
     ENTER();
     if (path && path[0] == 0) { /* AT_EMPTY_PATH: fstat-like */
         FD_EVENT("fstat", dirfd, 0, 0, 0, 0);
-        int r = real_statx(dirfd, path, flags, mask, st);
+        int r = t_fail ? (int)vshim_fail() : real_statx(dirfd, path, flags, mask, st);
         FD_DONE("fstat", r);
         LEAVE();
         return r;
     }
     PATH_EVENT("stat", dirfd, path, 0, NULL, 0, 0, 0);
-    int r = real_statx(dirfd, path, flags, mask, st);
+    int r = t_fail ? (int)vshim_fail() : real_statx(dirfd, path, flags, mask, st);
     PATH_DONE("stat", r);
     LEAVE();
     return r;
@@ -656,7 +677,7 @@ int stat64(const char *path, struct stat64 *st) {
     REAL(stat64);
     ENTER();
     PATH_EVENT("stat", AT_FDCWD, path, 0, NULL, 0, 0, 0);
-    int r = real_stat64(path, st);
+    int r = t_fail ? (int)vshim_fail() : real_stat64(path, st);
     PATH_DONE("stat", r);
     LEAVE();
     return r;
@@ -665,7 +686,7 @@ int lstat64(const char *path, struct stat64 *st) {
     REAL(lstat64);
     ENTER();
     PATH_EVENT("stat", AT_FDCWD, path, 0, NULL, 0, 0, 0);
-    int r = real_lstat64(path, st);
+    int r = t_fail ? (int)vshim_fail() : real_lstat64(path, st);
     PATH_DONE("stat", r);
     LEAVE();
     return r;
@@ -674,7 +695,7 @@ int stat(const char *path, struct stat *st) {
     REAL(stat);
     ENTER();
     PATH_EVENT("stat", AT_FDCWD, path, 0, NULL, 0, 0, 0);
-    int r = real_stat(path, st);
+    int r = t_fail ? (int)vshim_fail() : real_stat(path, st);
     PATH_DONE("stat", r);
     LEAVE();
     return r;
@@ -683,7 +704,7 @@ int lstat(const char *path, struct stat *st) {
     REAL(lstat);
     ENTER();
     PATH_EVENT("stat", AT_FDCWD, path, 0, NULL, 0, 0, 0);
-    int r = real_lstat(path, st);
+    int r = t_fail ? (int)vshim_fail() : real_lstat(path, st);
     PATH_DONE("stat", r);
     LEAVE();
     return r;
@@ -695,7 +716,7 @@ DIR *opendir(const char *path) {
     REAL(opendir);
     ENTER();
     PATH_EVENT("opendir", AT_FDCWD, path, 0, NULL, 0, 0, 0);
-    DIR *r = real_opendir(path);
+    DIR *r = t_fail ? (vshim_fail(), (DIR *)NULL) : real_opendir(path);
     if (active_ && rel_ && r) {
         for (int i = 0; i < 32; i++) if (!g_fresh[i]) { g_fresh[i] = r; break; }
     }
@@ -734,7 +755,7 @@ ssize_t readlink(const char *path, char *buf, size_t n) {
     REAL(readlink);
     ENTER();
     PATH_EVENT("readlink", AT_FDCWD, path, 0, NULL, 0, 0, 0);
-    ssize_t r = real_readlink(path, buf, n);
+    ssize_t r = t_fail ? (ssize_t)vshim_fail() : real_readlink(path, buf, n);
     PATH_DONE("readlink", r);
     LEAVE();
     return r;
